@@ -808,6 +808,12 @@ def linked_execute(case):
         mi = model[i]
         if op["op"] == "T":
             ops.append(("T", i, _temp(mi["lo"], mi["hi"], op["u"])))
+        elif op["op"] in ("lhot", "lcold"):
+            # a write THROUGH a link: setDimension(linked dim, v, retainLink=True, cold=...) on a component that has one
+            linkers = [j for j, mj in enumerate(model) if any(link_of(j, d) for d in _LSHAPE_DIMS[mj["shape"]])]
+            j = linkers[op["c"] % len(linkers)]
+            ldims = [d for d in _LSHAPE_DIMS[model[j]["shape"]] if link_of(j, d)]
+            ops.append((op["op"], j, ldims[op["d"] % len(ldims)], op["u"]))
         else:
             own = [d for d in _LSHAPE_DIMS[mi["shape"]] if not link_of(i, d) and mi["dims"][d]]
             if mi["kind"] == "solid" and own:
@@ -898,6 +904,45 @@ def linked_execute(case):
             what = "step %d: %s (%s) %.6f -> %.6f C" % (k, mi["name"], mi["mat"], mi["T"], t_new)
             mi["T"] = t_new
             out.label("op:T-solid" if mi["kind"] == "solid" else "op:T-fluid")
+        elif op[0] in ("lhot", "lcold"):
+            # retainLink=True: "the val will be applied to the dimension of linked component which indirectly changes
+            # this component's dimensions"; cold=False: the value is a hot one at the target's current temperature
+            d, u = op[2], op[3]
+            ti, td = link_of(i, d)
+            tgt, mt = clist[ti], model[ti]
+            grow = td in ("od", "op", "lengthOuter", "widthOuter")
+            if op[0] == "lhot":
+                cur = c.getDimension(d)
+                v = cur * (1.0 + 0.005 * u) if grow else cur * (1.0 - 0.005 * u)
+                c.setDimension(d, v, retainLink=True, cold=False)
+                mt["dims"][td] = v / f(ti)
+                g1, g2 = c.getDimension(d), tgt.getDimension(td)
+                out.check(_close(g1, v, TIGHT) and _close(g2, v, TIGHT), "link/hot-write-through-link-readback",
+                          lambda: "setDimension(%s.%s -> %s.%s, %r, retainLink=True, cold=False) with %s (%s) at %.6f C, input %.6f C: "
+                                  "%s.%s reads %r, %s.%s reads %r" % (mi["name"], d, mt["name"], td, v, mt["name"], mt["mat"], mt["T"],
+                                                                    mt["Tin"], mi["name"], d, g1, mt["name"], td, g2))
+                gc = tgt.getDimension(td, cold=True)
+                out.check(_close(gc, v / f(ti)), "link/hot-write-through-link-cold-value",
+                          lambda: "after the hot write of %r through %s.%s the cold %s.%s is %r, expected v/f = %r" % (
+                              v, mi["name"], d, mt["name"], td, gc, v / f(ti)))
+                if mt["kind"] == "solid" and abs(f(ti) - 1.0) > 1e-6:
+                    nontrivial = True
+                    out.label("link-hot-write:target-expanded")
+            else:
+                cur = c.getDimension(d, cold=True)
+                vc = cur * (1.0 + 0.005 * u) if grow else cur * (1.0 - 0.005 * u)
+                c.setDimension(d, vc, retainLink=True, cold=True)
+                mt["dims"][td] = vc
+                g1, g2 = c.getDimension(d, cold=True), tgt.getDimension(td, cold=True)
+                out.check(g1 == vc and g2 == vc, "link/cold-write-through-link",
+                          lambda: "setDimension(%s.%s -> %s.%s, %r, retainLink=True, cold=True): cold %s.%s reads %r, cold %s.%s reads %r" % (
+                              mi["name"], d, mt["name"], td, vc, mi["name"], d, g1, mt["name"], td, g2))
+            lk = c.p[d]
+            out.check(c.dimensionIsLinked(d) and lk.getLinkedComponent() is tgt and lk[1] == td, "link/write-with-retainLink-broke-link",
+                      lambda: "%s.%s after setDimension(retainLink=True) holds %r" % (mi["name"], d, lk))
+            refmass.pop(ti, None)  # the target's amount of material changed with its dimension
+            what = "step %d: %s write through %s.%s -> %s.%s" % (k, "hot" if op[0] == "lhot" else "cold", mi["name"], d, mt["name"], td)
+            out.label("op:link-" + ("hot" if op[0] == "lhot" else "cold") + "-write")
         else:
             d, u = op[2], op[3]
             cur = c.getDimension(d)
@@ -925,6 +970,9 @@ def linked_strategy(tier):
     op_t = st.fixed_dictionaries({"op": st.just("T"), "c": st.integers(0, 3), "u": _ufrac()})
     op_w = st.fixed_dictionaries({"op": st.sampled_from(["hot", "cold"]), "c": st.integers(0, 3), "d": st.integers(0, 3),
                                   "u": st.floats(0.0, 1.0)})
+    op_l = st.fixed_dictionaries({"op": st.sampled_from(["lhot", "lcold"]), "c": st.integers(0, 3), "d": st.integers(0, 3),
+                                  "u": st.floats(0.0, 1.0)})
+    op_t = st.one_of(op_t, op_t.map(dict))  # temperature steps stay the most frequent operation
     return st.fixed_dictionaries({
         "template": st.sampled_from(TEMPLATES),
         "scale": st.floats(0.05, 30.0),
@@ -935,7 +983,7 @@ def linked_strategy(tier):
         "tin": st.lists(_ufrac(), min_size=4, max_size=4),
         "t0": st.lists(_ufrac(), min_size=4, max_size=4),
         "height": st.floats(0.5, 200.0),
-        "ops": st.lists(st.one_of(op_t, op_t, op_t, op_t, op_w), min_size=1, max_size=8),
+        "ops": st.lists(st.one_of(op_t, op_w, op_l), min_size=1, max_size=8),
     })
 
 
@@ -955,7 +1003,9 @@ def linked_enum(tier):
                     "tin": [0.0, 0.02, 0.0, 0.05], "t0": [0.4, 0.3, 0.5, 0.2], "height": 1.0 + 50.0 * _u(*key + ("h",)),
                     "ops": [{"op": "T", "c": 0, "u": 1.0}, {"op": "T", "c": 1, "u": 0.9}, {"op": "T", "c": 2, "u": 0.0},
                             {"op": "T", "c": 3, "u": 1.0}, {"op": "hot", "c": 0, "d": 0, "u": 0.5}, {"op": "T", "c": 0, "u": 0.1},
-                            {"op": "T", "c": 2, "u": 0.8}],
+                            {"op": "T", "c": 2, "u": 0.8}, {"op": "lhot", "c": r, "d": 0, "u": 0.6}, {"op": "T", "c": 0, "u": 0.6},
+                            {"op": "lcold", "c": r + 1, "d": 1, "u": 0.4}, {"op": "T", "c": 1, "u": 0.2}, {"op": "T", "c": 2, "u": 0.3},
+                            {"op": "lhot", "c": r + 1, "d": 1, "u": 0.3}, {"op": "T", "c": 3, "u": 0.5}],
                 })
     return cases
 
@@ -989,7 +1039,8 @@ PARTS = [
          procs={"quick": 3, "thorough": 16},
          rule="Hypothesis: 2-4 components built like BlockBlueprint.construct (link strings, resolveLinkedDims, HexBlock), each "
               "with its own material, Tinput and Thot; history of up to 8 setTemperature / setDimension operations on any "
-              "component; after every step every linked dimension equals the target's current (and cold) dimension and the "
+              "component, including hot and cold writes THROUGH a link (setDimension(linked dim, v, retainLink=True, cold=...): "
+              "link and target both read back v, the target's cold value is v/f(T_target), the link stays a link); after every step every linked dimension equals the target's current (and cold) dimension and the "
               "harness value cold*f(T_target), every own dimension of a solid equals cold*f, fluids keep theirs, area follows "
               "the current dimensions, cached volume = area*height, unlinked solids conserve A*sum(N_i A_i). Non-trivial: a "
               ">= 50 K change with different dLL of a solid that another component is linked to"),
